@@ -126,7 +126,15 @@ def _tag_takes_value(interp, args, kwargs):
     return SV(BOOL, _has_attr_term(interp, args[0], "takesValue"))
 
 
+def _tag_base_has_attribute(interp, args, kwargs):
+    f = z3.Function("base_has_attr", z3.IntSort(), z3.StringSort(), z3.BoolSort())
+    key = args[1]
+    return SV(BOOL, f(args[0].t, z3.StringVal(key) if isinstance(key, str) else interp.ctx.strs.to_native(key)))
+
+
 if z3 is not None:
+    EXTERNS["HedTag.base_tag_has_attribute"] = _tag_base_has_attribute
+    EXTERNS["base_has_attr"] = _tag_base_has_attribute
     EXTERNS["ErrorHandler.format_error"] = _format_error
     EXTERNS["HedTag.has_attribute"] = _tag_has_attribute
     EXTERNS["has_attr"] = _tag_has_attribute
